@@ -75,7 +75,7 @@ func VerifC18IPv4Free() {
 }
 
 // C18 IPv6 by shape: param 0 says whether the shape admits valid addresses; the other params list the group
-// lengths; 9 stands for the "::" gap, 0 ends the list.
+// lengths; 9 stands for the "::" gap, 8 for a lone colon (leading or trailing), 0 ends the list.
 func VerifC18IPv6Shape() {
 	o1 := nnsWithName()
 	tags := []string{"a", "b", "c", "d", "e", "f", "g", "h", "i"}
@@ -88,6 +88,12 @@ func VerifC18IPv6Shape() {
 		}
 		if p == 9 {
 			data += "::"
+			prevGap = true
+			first = false
+			continue
+		}
+		if p == 8 { // a lone colon: an empty fragment at the start or the end of the data
+			data += ":"
 			prevGap = true
 			first = false
 			continue
